@@ -27,6 +27,8 @@ def c07(ctx):
         [f.result() for f in futs]
     # same seed, two processes: Go randomises map iteration per process, the digests must agree
     import os
+    if os.environ.get("VERIF_BUILD_ONLY"):
+        return
     d = [os.path.join(ctx.reports_dir, "cc-c07-%d" % i, "c07-digests-%d.txt" % i) for i in (0, 1)]
     if all(os.path.exists(x) for x in d):
         a, b = open(d[0]).read().split("\n"), open(d[1]).read().split("\n")
